@@ -44,9 +44,13 @@ def status_value(cls: str):
     ds = Dataset()
     if cls == "DSP":
         ds.Status = 0xFF00
+        # a status data set may hold command elements that are not status elements (e.g. one built from a copy of a command
+        # set): they are not the handler's to set - the response still answers THIS request
+        ds.MessageIDBeingRespondedTo = 4242
     elif cls == "DSF":
         ds.Status = 0xA700
         ds.ErrorComment = "ec"
+        ds.MessageIDBeingRespondedTo = 4242
     elif cls == "DSNO":
         ds.PatientID = "nostatus"
     elif cls == "BAD":
